@@ -38,14 +38,14 @@ def fiveSpellings : List (Bytes × Cov) :=
 /-- The witness: default options, nothing on disk — five records, all named `foo/bar.c`, with the
 five inputs' counts side by side instead of one record with their sum. -/
 theorem C12_duplicate_witness :
-    rewritePaths {} ⟨[], [], []⟩ fiveSpellings =
+    rewritePaths {} { files := [], dirs := [], cwd := [] } fiveSpellings =
       .ok ((List.range 5).map fun i =>
         ⟨[102, 111, 111, 47, 98, 97, 114, 46, 99], [102, 111, 111, 47, 98, 97, 114, 46, 99],
          { lines := [(1, i + 1)] }⟩) := by decide
 
 theorem C12_unique_false : ¬ C12_unique_stmt := by
   intro h
-  have := h {} ⟨[], [], []⟩ fiveSpellings _ (by unfold NodupKeys keys; decide) C12_duplicate_witness
+  have := h {} { files := [], dirs := [], cwd := [] } fiveSpellings _ (by unfold NodupKeys keys; decide) C12_duplicate_witness
   revert this
   decide
 
@@ -170,14 +170,14 @@ def C12_unique_normal_keys_stmt : Prop :=
 /-- Witness: `--prefix-dir p`, keys `p/a.c` and `a.c` — two different clean keys, neither a
 respelling of the other — are both reported as `a.c`, each with its own counts. -/
 theorem C12_prefix_collapse_witness :
-    rewritePaths { prefixDir := some [112] } ⟨[], [], []⟩
+    rewritePaths { prefixDir := some [112] } { files := [], dirs := [], cwd := [] }
         [([112, 47, 97, 46, 99], { lines := [(1, 1)] }), ([97, 46, 99], { lines := [(1, 2)] })]
       = .ok [⟨[97, 46, 99], [97, 46, 99], { lines := [(1, 1)] }⟩,
              ⟨[97, 46, 99], [97, 46, 99], { lines := [(1, 2)] }⟩] := by decide
 
 theorem C12_unique_normal_keys_false : ¬ C12_unique_normal_keys_stmt := by
   intro h
-  have := h { prefixDir := some [112] } ⟨[], [], []⟩ _ _ rfl rfl (by unfold NodupKeys keys; decide)
+  have := h { prefixDir := some [112] } { files := [], dirs := [], cwd := [] } _ _ rfl rfl (by unfold NodupKeys keys; decide)
     (by
       intro kc hkc
       simp only [List.mem_cons, List.not_mem_nil, or_false] at hkc
@@ -229,7 +229,7 @@ example : lexName {} [46, 47, 97, 46, 99] = lexName {} [97, 46, 99] ∧
   decide
 
 /-- all keys below the prefix `/p`: `/p/a.c`, `/p/x/b.c` are reported as `a.c`, `x/b.c` -/
-example : ∃ rep, rewritePaths { prefixDir := some [47, 112] } ⟨[], [], []⟩
+example : ∃ rep, rewritePaths { prefixDir := some [47, 112] } { files := [], dirs := [], cwd := [] }
       [([47, 112, 47, 97, 46, 99], {}), ([47, 112, 47, 120, 47, 98, 46, 99], {})] = .ok rep ∧
     rep.map (·.rel) = [[97, 46, 99], [120, 47, 98, 46, 99]] := ⟨_, rfl, by decide⟩
 
@@ -346,14 +346,14 @@ theorem C12_covdir_root_counts_each_file_once (rep : List Rec) (rs : List Stats.
 /-- Without it they do not: on the witness report the root total is 5 lines for the single listed
 file with 1 line. -/
 theorem C12_totals_false :
-    ∃ rep, rewritePaths {} ⟨[], [], []⟩ fiveSpellings = .ok rep ∧
+    ∃ rep, rewritePaths {} { files := [], dirs := [], cwd := [] } fiveSpellings = .ok rep ∧
       dirTotal (fun _ => true) rep = 5 ∧ listedTotal (fun _ => true) rep = 1 :=
   ⟨_, C12_duplicate_witness, by decide, by decide⟩
 
 /-! ### non-vacuity -/
 
 /-- guard 1 on a concrete map: two clean keys, reported under themselves -/
-example : ∃ rep, rewritePaths {} ⟨[], [], []⟩
+example : ∃ rep, rewritePaths {} { files := [], dirs := [], cwd := [] }
       [([102, 111, 111, 47, 98, 97, 114, 46, 99], { lines := [(1, 1)] }),
        ([47, 115, 47, 97, 46, 99], { lines := [(2, 0)] })] = .ok rep ∧
     rep.map (·.rel) = [[102, 111, 111, 47, 98, 97, 114, 46, 99], [47, 115, 47, 97, 46, 99]] :=
